@@ -222,7 +222,10 @@ func (p *Prog) computeModSet(f *ssa.Function, ms *ModSet, visiting map[*ssa.Func
 					continue
 				}
 				ms.addStore(p, x.Addr, elem, nil)
-				ms.sites[storeTarget(x.Addr)] = append(ms.sites[storeTarget(x.Addr)], pos(x))
+				if !freshRoot(x.Addr, nil) {
+					// stores into objects allocated by this very function cannot affect the caller's objects
+					ms.sites[storeTarget(x.Addr)] = append(ms.sites[storeTarget(x.Addr)], pos(x))
+				}
 			case *ssa.MapUpdate:
 				mt := x.Map.Type().Underlying().(*types.Map)
 				ms.maps[typeKey(mt)] = mt
